@@ -362,4 +362,49 @@ def prepareShootingPoint (vKin vRng : Variant) (s : Setup) (h : Heap) (a : Nat)
                                  objs := h3.objs ++ ([newOrder, r.frame.pos.flatten, velPayload] ++ boxObjs) }
       .ok { heap := h4, copy := c, dek := r.dek, request := r.request }
 
+/-! ### added in the extension pass: the two remaining branches of the helpers, mirrored
+
+`draw_maxwellian_velocities(vel, mass, beta, sigma_v=None)` (enginebase.py:633-662):
+  `if sigma_v is None or np.any(sigma_v < 0.0): sigma_v = np.sqrt((1/beta) * (1 / mass))`
+  `npart, dim = vel.shape`; `if hasattr(self, "rgen"): vel = self.rgen.normal(0.0, sigma_v, (npart, dim))`
+  `else: raise ValueError("Did not find random generator!!")`
+`kinetic_energy(vel, mass)` (cp2k.py:562-579): `len(mass) == 1` → `0.5*np.outer(mom, vel)` (both flattened),
+  otherwise `0.5*np.einsum('ij,ik->jk', mom, vel)`; the kinetic energy is the trace. -/
+
+inductive DrawErr | noRgen
+deriving Repr, DecidableEq
+
+/-- the squares of the scale handed to `rgen.normal`: an explicit `sigma_v` without negative entry is used as
+    given (also all zeros — falsy but valid), `None` or any negative entry → estimated from `beta` and the masses -/
+def drawScaleSq (bet : Rat) (ms : List Rat) (sigmaV : Option (List Rat)) : List Rat :=
+  match sigmaV with
+  | none => sigmaSq bet ms
+  | some sv => if sv.any (fun x => decide (x < 0)) then sigmaSq bet ms else sv.map (fun x => x * x)
+
+/-- the one request `draw_maxwellian_velocities` makes, or ValueError when the engine has no `rgen` -/
+def drawMaxwellian (hasRgen : Bool) (bet : Rat) (ms : List Rat) (sigmaV : Option (List Rat))
+    (npart dim : Nat) : Except DrawErr Request :=
+  if hasRgen then
+    .ok { stream := .engineRgen, method := "normal", loc := 0, scaleSq := some (drawScaleSq bet ms sigmaV),
+          npart := npart, dim := dim }
+  else .error .noRgen
+
+/-- `kinetic_energy(vel, mass)[0]` with its `len(mass) == 1` branch: the trace of the outer product of the
+    flattened momenta and velocities is `Σ pₖ vₖ` over all entries -/
+def kineticEnergyCode (ms : List Rat) (vel : List (List Rat)) : Rat :=
+  if ms.length = 1 then
+    (1 / 2) * dot ((vel.map (fun col => mulCol col ms)).flatten) vel.flatten
+  else sumL (vel.map (kinCol ms))
+
+inductive MassErr | unknownElement
+deriving Repr, DecidableEq
+
+/-- `guess_particle_mass(particle_no, particle_type)` (cp2k.py:522-558): `PERIODIC_TABLE.get(particle_type, None)`;
+    `None` → ValueError ("not in our periodic table"), otherwise `1822.8884858012982 * mass` (g/mol → electron masses).
+    `tableEntry` = the table's entry for the element name (`none` = not in the table). -/
+def guessParticleMass (tableEntry : Option Rat) : Except MassErr Rat :=
+  match tableEntry with
+  | none => .error .unknownElement
+  | some m => .ok (cp2kMassFactor * m)
+
 end Infretis.Vel
